@@ -4,11 +4,15 @@
    hence _act_finish never finds a client without a command (the assert of client.c is unreachable), every completion
    decrements exactly one counter, and the final reply of a command is produced exactly when its last action completes.
    Built on the device-layer invariant (Proofs/DeviceInv.v: step_post, st_fifo) and the client-layer token lemmas
-   (Proofs/ClientStream.v: parse_input_toks, act_finish_toks). *)
+   (Proofs/ClientStream.v: parse_input_toks, act_finish_toks).
+   The per-device invariant carried here is the Hang-free one, Proofs/DeviceHang.DInvH (= DInvG, 0 <= retry_count, queued plug
+   lists no longer than the device's, nest_ok of the device's scripts: blocks nested at most DMAX = 7 deep - a STATIC hypothesis on
+   the configuration, part of `boot`, true of every shipped specification: SpecBridge.shipped_nest_ok).  Hence every pass / run
+   below returns Ok: never Exit / Abort / MemErr and never Hang (post_poll_one_invH). *)
 From Coq Require Import List NArith ZArith Bool Lia Permutation.
 From PM Require Import Base.Bytes Base.Outcome Gen.GenConsts Model.ScriptAst Model.Enqueue Model.Script Model.Device Model.DevHarness
                        Model.Client Model.CliWorld Model.Daemon Spec.Proto
-                       Proofs.ClientProofs Proofs.ClientProto Proofs.ClientStream Proofs.ClientStreamQ Proofs.DeviceInv Proofs.DeviceRun Proofs.DeviceInvG Proofs.DeviceRunG Proofs.DeviceSlots Proofs.DaemonLedger Proofs.DaemonFrame Proofs.DaemonSlots.
+                       Proofs.ClientProofs Proofs.ClientProto Proofs.ClientStream Proofs.ClientStreamQ Proofs.DeviceInv Proofs.DeviceRun Proofs.DeviceInvG Proofs.DeviceRunG Proofs.DeviceHang Proofs.DeviceSlots Proofs.DaemonLedger Proofs.DaemonFrame Proofs.DaemonSlots.
 Import ListNotations.
 Local Open Scope Z_scope.
 
@@ -222,7 +226,8 @@ Section P.
   Qed.
 
   (* ---------------------------------------------------------------- the device pass *)
-  Notation DevsInv := (Forall (DInvRG compress)).
+  (* DInvH d -> DInvRG compress d (DInvH_RG): everything the older lemmas want is a projection (dh_inv, dh_rc) *)
+  Notation DevsInv := (Forall (DInvH compress)).
 
   Lemma qall_upd id : forall devs i d d', nth_error devs i = Some d ->
     cnt id (qall (upd_nth devs i (fun _ => d'))) + cnt id (queued d) = cnt id (qall devs) + cnt id (queued d').
@@ -244,7 +249,7 @@ Section P.
     - apply incl_appl, incl_refl.
     - apply incl_appr. eapply IH; eauto.
   Qed.
-  Lemma DevsInv_upd : forall devs i d', DevsInv devs -> DInvRG compress d' -> DevsInv (upd_nth devs i (fun _ => d')).
+  Lemma DevsInv_upd : forall devs i d', DevsInv devs -> DInvH compress d' -> DevsInv (upd_nth devs i (fun _ => d')).
   Proof.
     induction devs as [|a r IH]; intros [|i] d' H Hd; cbn [upd_nth]; [constructor|constructor| |]; inversion H; subst; constructor; auto.
   Qed.
@@ -276,7 +281,6 @@ Section P.
     DPInv st -> tmo_pos tmo ->
     match dev_loop ranged_sorted rmatch compress short_circuit n now st i pins tmo acc with
     | Ok (st', tmo', evs) => DPInv st' /\ tmo_pos tmo' /\ ids st' = ids st /\ dm_seq st' = dm_seq st /\ length (dm_devs st') = length (dm_devs st) /\ exists new, evs = acc ++ new
-    | Hang _ => True
     | _ => False
     end.
   Proof.
@@ -285,13 +289,12 @@ Section P.
     - destruct (nth_error (dm_devs st) i) as [d|] eqn:En;
         [|split; [exact I|]; split; [exact Hp|]; repeat (split; [reflexivity|]); exists []; now rewrite app_nil_r].
       destruct (with_pre (nth i (dm_pipe st) true) (nth i (dm_tel st) Telnet.telnet_init) (hd passin0 pins)) as [pin t1].
-      assert (Hd : DInvRG compress d) by (pose proof (dp_devs _ I) as H; rewrite Forall_forall in H; apply H; eapply nth_error_In; exact En).
-      destruct Hd as [Hd Hrc].
-      pose proof (post_poll_one_inv_pre rmatch compress short_circuit now d (dm_store st) tmo pin Hd Hp Hrc) as H1.
+      assert (HdH : DInvH compress d) by (pose proof (dp_devs _ I) as H; rewrite Forall_forall in H; apply H; eapply nth_error_In; exact En).
+      pose proof (dh_inv _ _ HdH) as Hd. pose proof (dh_rc _ _ HdH) as Hrc.
+      destruct (post_poll_one_invH rmatch compress short_circuit now d (dm_store st) tmo pin HdH Hp) as (d' & store' & tmo' & evs & EP & Hd' & SP & TK).
       assert (Hcbd : ArgsCb d) by (pose proof (si_cb _ (dp_slots _ I)) as H; rewrite Forall_forall in H; apply H; eapply nth_error_In; exact En).
       pose proof (post_poll_one_slots rmatch compress short_circuit now d (dm_store st) tmo pin Hd Hcbd Hp Hrc) as HS.
-      destruct (post_poll_one rmatch compress short_circuit now d (dm_store st) tmo pin) as [[[[d' store'] tmo'] evs]| | | |]; try contradiction; [|exact Logic.I].
-      destruct H1 as [SP TK].
+      rewrite EP in HS |- *.
       match goal with |- context [route_all ranged_sorted ?s evs] => set (st1 := s) end.
       assert (Hids1 : ids st1 = ids st) by reflexivity.
       assert (Hc1 : CInv (completions evs ++ []) (dm_devs st1) (dm_clients st1)).
@@ -302,7 +305,7 @@ Section P.
       assert (I2 : DPInv st2).
       { constructor.
         - rewrite A2. unfold st1. cbn [dm_devs]. apply DevsInv_upd; [exact (dp_devs _ I)|].
-          split; [exact (tg_inv _ _ _ _ _ _ _ _ _ SP)|exact (conn_rel_rc _ _ _ _ (tg_conn _ _ _ _ _ _ _ _ _ SP) Hrc)].
+          exact Hd'.
         - rewrite A1, Hids1. exact (dp_nodup _ I).
         - exact C2.
         - rewrite A2, A1, A3, Hids1. unfold st1. cbn [dm_devs dm_seq].
@@ -319,7 +322,7 @@ Section P.
             pose proof (cnt_in (cid x') (qall (dm_devs st2)) Hin). lia. }
       specialize (IH now st2 (S i) (tl pins) tmo' (acc ++ map (SysDev i) evs) I2).
       specialize (IH (tg_pos _ _ _ _ _ _ _ _ _ SP)).
-      destruct (dev_loop ranged_sorted rmatch compress short_circuit n now st2 (S i) (tl pins) tmo' (acc ++ map (SysDev i) evs)) as [[[st3 tmo3] evs3]| | | |]; try contradiction; [|exact Logic.I].
+      destruct (dev_loop ranged_sorted rmatch compress short_circuit n now st2 (S i) (tl pins) tmo' (acc ++ map (SysDev i) evs)) as [[[st3 tmo3] evs3]| | | |]; try contradiction.
       destruct IH as (I3 & T3 & B1 & B2 & B3 & new & ->).
       assert (Hseq1 : dm_seq st1 = dm_seq st) by reflexivity.
       split; [exact I3|]. split; [exact T3|]. split; [congruence|]. split; [congruence|].
@@ -362,18 +365,18 @@ Section P.
   Proof.
     intros Hcom. induction devs as [|d r IH]; intros Hd; cbn [map enqueue enq_all].
     - exists []. repeat split; auto. intros i. cbn. destruct (Z.eq_dec i id); lia. intros x [].
-    - inversion Hd as [|? ? [I Hrc] Hr]; subst.
-      destruct (fold_append_invG compress id tele args (enqueue_dev (edev_of d) com tgts) d I) as (d1 & E1 & I1 & S1 & Q1 & C1 & R1 & L1).
-      { intros q Hin. now apply (enqueue_dev_props d com tgts q). }
+    - inversion Hd as [|? ? I Hr]; subst.
+      destruct (fold_append_invH compress id tele args (enqueue_dev (edev_of d) com tgts) d I) as (d1 & E1 & I1 & S1 & Q1 & C1 & R1 & L1).
+      { intros q Hin. destruct (enqueue_dev_props d com tgts q Hin Hcom) as (G1 & G2 & G3 & G4).
+        split; [exact G1|]. split; [exact G2|]. split; [exact G3|]. split; [exact G4|]. exact (enqueue_dev_olen d com tgts q Hin). }
       unfold enqueue in *. cbn [map enq_all snd]. rewrite E1.
       destruct (IH Hr) as (r' & E2 & H2 & N2 & K2 & J2). rewrite E2.
       set (acts := enqueue_dev (edev_of d) com tgts) in *.
       set (d2 := match acts with [] => d1 | _ => expedite d1 end).
-      assert (Hrc1 : 0 <= dv_retry_count d1) by (rewrite R1; exact Hrc).
-      assert (H3 : DInvRG compress d2 /\ queued d2 = queued d ++ repeat id (length acts)).
+      assert (H3 : DInvH compress d2 /\ queued d2 = queued d ++ repeat id (length acts)).
       { unfold d2. destruct acts as [|q0 qs] eqn:Eq.
-        - split; [split; [exact I1|exact Hrc1]|exact Q1].
-        - destruct (expedite_invG compress d1 (conj I1 Hrc1)) as (X1 & X2 & X3). split; [exact X1|]. rewrite X3. exact Q1. }
+        - split; [exact I1|exact Q1].
+        - destruct (expedite_invH compress d1 I1) as (X1 & X2 & X3). split; [exact X1|]. rewrite X3. exact Q1. }
       destruct H3 as [X1 X3].
       eexists. split; [reflexivity|]. split; [constructor; assumption|]. split; [cbn; now rewrite N2|]. split.
       + intros i. unfold qall in *. cbn [flat_map total fold_right snd]. rewrite !cnt_app, X3, cnt_app, (K2 i).
@@ -591,13 +594,13 @@ Section P.
       destruct S1 as (B1 & B2 & B3), S' as (C1 & C2 & C3). repeat split; congruence.
   Qed.
 
-  (* one pass of the select loop: from a state that satisfies the cross-layer invariant, with coprocess devices only,
-     the pass never aborts / exits / corrupts memory, and re-establishes the invariant *)
+  (* one pass of the select loop: from a state that satisfies the cross-layer invariant (devices of any transport),
+     the pass returns Ok - never aborts / exits / corrupts memory, never runs out of loop fuel (Hang) - and re-establishes the
+     invariant *)
   Theorem dstep_inv st r : DPInv st -> NL st -> 1 <= dm_seq st < INT_MAX ->
     match dstep expand_str ranged_sorted ranged_plain sorted rmatch compress short_circuit st r with
     | Ok (st', o) => DPInv st' /\ NL st' /\ (forall t, do_tmo o = Some t -> 0 < t) /\ length (dm_devs st') = length (dm_devs st) /\
                      dm_seq st <= dm_seq st' <= dm_seq st + 1
-    | Hang _ => True
     | _ => False
     end.
   Proof.
@@ -633,7 +636,7 @@ Section P.
     destruct Sb as (B1 & B2 & B3).
     pose proof (dev_loop_inv (length (dm_devs stb)) (r_now r) stb 0 (r_dev r) None [] Ib) as Hd.
     assert (Hn : tmo_pos None) by (intros x Hx; discriminate). specialize (Hd Hn).
-    destruct (dev_loop ranged_sorted rmatch compress short_circuit (length (dm_devs stb)) (r_now r) stb 0 (r_dev r) None []) as [[[stc tmo] e3]| | | |] eqn:Edl; try contradiction; [|exact Logic.I].
+    destruct (dev_loop ranged_sorted rmatch compress short_circuit (length (dm_devs stb)) (r_now r) stb 0 (r_dev r) None []) as [[[stc tmo] e3]| | | |] eqn:Edl; try contradiction.
     destruct Hd as (Ic & Tc & _ & Sc & Lc & _). cbn [do_tmo]. split; [exact Ic|].
     split; [exact (dev_loop_nl ranged_sorted rmatch compress short_circuit _ _ _ _ _ _ _ _ _ _ Nb Edl)|]. split; [exact Tc|]. split; lia.
   Qed.
@@ -646,7 +649,6 @@ Section P.
     match drun expand_str ranged_sorted ranged_plain sorted rmatch compress short_circuit st rs acc with
     | Ok (st', outs) => DPInv st' /\ length (dm_devs st') = length (dm_devs st) /\
                         exists new, outs = acc ++ new /\ Forall (fun o => forall t, do_tmo o = Some t -> 0 < t) new
-    | Hang _ => True
     | _ => False
     end.
   Proof.
@@ -654,35 +656,36 @@ Section P.
     - split; [exact I|]. split; [reflexivity|]. exists []. split; [now rewrite app_nil_r|constructor].
     - cbn [length] in Hn.
       pose proof (dstep_inv st r I Hnl ltac:(lia)) as Hs.
-      destruct (dstep expand_str ranged_sorted ranged_plain sorted rmatch compress short_circuit st r) as [[st1 o]| | | |]; try contradiction; [|exact Logic.I].
+      destruct (dstep expand_str ranged_sorted ranged_plain sorted rmatch compress short_circuit st r) as [[st1 o]| | | |]; try contradiction.
       destruct Hs as (I1 & N1 & T1 & L1 & S1).
       specialize (IH st1 (acc ++ [o]) I1 N1 ltac:(lia) ltac:(lia)).
-      destruct (drun expand_str ranged_sorted ranged_plain sorted rmatch compress short_circuit st1 rs (acc ++ [o])) as [[st' outs]| | | |]; try contradiction; [|exact Logic.I].
+      destruct (drun expand_str ranged_sorted ranged_plain sorted rmatch compress short_circuit st1 rs (acc ++ [o])) as [[st' outs]| | | |]; try contradiction.
       destruct IH as (I' & L' & new & -> & F'). split; [exact I'|]. split; [congruence|].
       exists (o :: new). split; [now rewrite <- app_assoc|]. constructor; assumption.
   Qed.
 
-  (* start-up: no client yet, devices as the parser leaves them *)
+  (* start-up: no client yet, devices as the parser leaves them (DInvH: mk_device_invH from cfg_ok and nest_ok of the scripts;
+     SpecBridge.shipped_invH for every shipped specification) *)
   Definition boot (st : daemon) : Prop :=
     dm_clients st = [] /\ dm_seq st = 1 /\
-    Forall (fun d => DInvRG compress d /\ dv_cstate d = DEV_NOT_CONNECTED /\ queued d = [] /\ dv_acts d = []) (dm_devs st).
+    Forall (fun d => DInvH compress d /\ dv_cstate d = DEV_NOT_CONNECTED /\ queued d = [] /\ dv_acts d = []) (dm_devs st).
 
   Lemma init_loop_inv now : forall devs plans i,
-    Forall (fun d => DInvRG compress d /\ dv_cstate d = DEV_NOT_CONNECTED /\ queued d = [] /\ dv_acts d = []) devs ->
+    Forall (fun d => DInvH compress d /\ dv_cstate d = DEV_NOT_CONNECTED /\ queued d = [] /\ dv_acts d = []) devs ->
     exists devs' evs, init_loop now devs plans i = Ok (devs', evs) /\ DevsInv devs' /\ qall devs' = [] /\ length devs' = length devs /\
                       Forall ArgsCb devs' /\ aslots devs' = [].
   Proof.
     induction devs as [|d r IH]; intros plans i H; cbn [init_loop].
     - exists [], []. repeat split; auto.
-    - inversion H as [|? ? ([I Hrc] & Hc & Hq & Ha) Hr]; subst.
-      destruct (connect_invG compress now d (hd [] plans) I Hc) as (d1 & pl & E1 & _ & I1 & _ & Q1 & _ & R1 & _ & _ & A1 & A2).
+    - inversion H as [|? ? (I & Hc & Hq & Ha) Hr]; subst.
+      destruct (connect_invH compress now d (hd [] plans) I Hc) as (d1 & pl & E1 & _ & I1 & _ & Q1 & _ & R1 & _ & _ & A1 & A2).
       rewrite E1. destruct (IH (tl plans) (S i) Hr) as (r' & e2 & E2 & H2 & Q2 & N2 & C2 & S2). rewrite E2.
       assert (Hd1 : ArgsCb d1 /\ dslots d1 = []).
       { destruct (Z.eq_dec (dv_cstate d1) DEV_CONNECTED) as [Ec|Ec].
         - destruct (A1 Ec) as (s & _ & Eacts). unfold ArgsCb, dslots. rewrite Eacts, Ha. split; [constructor; [intros X; cbn in X; congruence|constructor]|reflexivity].
         - unfold ArgsCb, dslots. rewrite (A2 Ec), Ha. split; [constructor|reflexivity]. }
       destruct Hd1 as [Hd1 Hd2].
-      eexists _, _. split; [reflexivity|]. split; [constructor; [split; [exact I1|lia]|exact H2]|].
+      eexists _, _. split; [reflexivity|]. split; [constructor; [exact I1|exact H2]|].
       split; [unfold qall in *; cbn [flat_map]; now rewrite Q1, Hq, Q2|]. split; [cbn; now rewrite N2|].
       split; [constructor; assumption|]. unfold aslots in *. cbn [flat_map]. now rewrite Hd2, S2.
   Qed.
@@ -714,15 +717,14 @@ Section P.
           Forall (fun x => cli_ok x /\ pend (dc x) = cnt (cid x) (qall (dm_devs st'))) (dm_clients st') /\
           NoDup (ids st') /\ DevsInv (dm_devs st') /\
           Forall (fun o => forall t, do_tmo o = Some t -> 0 < t) outs
-      | Hang _ => True
-      | _ => False                (* never Exit / Abort / MemErr: in particular _act_finish always finds its command *)
+      | _ => False                (* never Exit / Abort / MemErr / Hang: in particular _act_finish always finds its command *)
       end.
   Proof.
     intros Hb Hn. destruct (dinit_inv st now plans Hb) as (st1 & o & E & I1 & S1 & P1 & C1 & _).
     exists st1, o. split; [exact E|].
     assert (N1 : NL st1) by (intros p x Hx; rewrite C1 in Hx; destruct p; discriminate Hx).
     pose proof (drun_inv rs st1 [] I1 N1 ltac:(lia) ltac:(rewrite S1; unfold INT_MAX in *; lia)) as H.
-    destruct (drun expand_str ranged_sorted ranged_plain sorted rmatch compress short_circuit st1 rs []) as [[st' outs]| | | |]; try contradiction; [|exact Logic.I].
+    destruct (drun expand_str ranged_sorted ranged_plain sorted rmatch compress short_circuit st1 rs []) as [[st' outs]| | | |]; try contradiction.
     destruct H as (I' & _ & new & -> & F). cbn [app]. split; [exact (dp_cinv _ I')|]. split; [exact (dp_nodup _ I')|]. split; [exact (dp_devs _ I')|exact F].
   Qed.
 
@@ -747,7 +749,6 @@ Section P.
     exists st1 o, dinit st now plans = Ok (st1, o) /\
       match drun expand_str ranged_sorted ranged_plain sorted rmatch compress short_circuit st1 rs [] with
       | Ok (st', outs) => SInv st'
-      | Hang _ => True
       | _ => False
       end.
   Proof.
@@ -755,7 +756,7 @@ Section P.
     exists st1, o. split; [exact E|].
     assert (N1 : NL st1) by (intros p x Hx; rewrite C1 in Hx; destruct p; discriminate Hx).
     pose proof (drun_inv rs st1 [] I1 N1 ltac:(lia) ltac:(rewrite S1; unfold INT_MAX in *; lia)) as H.
-    destruct (drun expand_str ranged_sorted ranged_plain sorted rmatch compress short_circuit st1 rs []) as [[st' outs]| | | |]; try contradiction; [|exact Logic.I].
+    destruct (drun expand_str ranged_sorted ranged_plain sorted rmatch compress short_circuit st1 rs []) as [[st' outs]| | | |]; try contradiction.
     destruct H as (I' & _). exact (dp_slots _ I').
   Qed.
 
@@ -763,12 +764,11 @@ Section P.
     exists st1 o, dinit st now plans = Ok (st1, o) /\
       match drun expand_str ranged_sorted ranged_plain sorted rmatch compress short_circuit st1 rs [] with
       | Ok (st', outs) => Forall (fun x => dc_bad x = false -> stream_conforms x) (dm_clients st')
-      | Hang _ => True
       | _ => False
       end.
   Proof.
     intros Hb Hn. destruct (daemon_invariant st now plans rs Hb Hn) as (st1 & o & E & H). exists st1, o. split; [exact E|].
-    destruct (drun expand_str ranged_sorted ranged_plain sorted rmatch compress short_circuit st1 rs []) as [[st' outs]| | | |]; try contradiction; [|exact Logic.I].
+    destruct (drun expand_str ranged_sorted ranged_plain sorted rmatch compress short_circuit st1 rs []) as [[st' outs]| | | |]; try contradiction.
     destruct H as (H & _). eapply Forall_impl; [|exact H]. cbn beta. intros x [K _] Hbad. exact (cli_ok_conforms x K Hbad).
   Qed.
 End P.
